@@ -76,7 +76,9 @@ pub enum T {
 pub fn all_types() -> Vec<T> {
     vec![
         T::Char(None), T::Char(Some(3)), T::StringN(1), T::StringN(4000), T::StringNone, T::StringMax, T::Text, T::TinyInteger, T::SmallInteger, T::Integer, T::BigInteger, T::TinyUnsigned, T::SmallUnsigned, T::Unsigned, T::BigUnsigned,
-        T::Float, T::Double, T::Decimal(None), T::Decimal(Some((10, 2))), T::DateTime, T::Timestamp, T::TimestampWithTimeZone, T::Time, T::Date, T::Year, T::Interval(None, None), T::Interval(Some(PgInterval::YearToMonth), None), T::Interval(Some(PgInterval::Second), Some(3)), T::Interval(None, Some(6)),
+        T::Float, T::Double, T::Decimal(None), T::Decimal(Some((10, 2))), T::DateTime, T::Timestamp, T::TimestampWithTimeZone, T::Time, T::Date, T::Year, T::Interval(None, None), T::Interval(Some(PgInterval::YearToMonth), None), T::Interval(Some(PgInterval::Second), Some(3)), T::Interval(None, Some(6)), T::Interval(None, Some(0)), T::Interval(Some(PgInterval::Second), Some(0)), T::Interval(Some(PgInterval::MinuteToSecond), Some(1)),
+        // parameters at the edge (1, 0): a renderer that treats a small number as "not given" shows here
+        T::Char(Some(1)), T::Decimal(Some((1, 0))), T::Decimal(Some((38, 0))), T::Bit(Some(1)), T::VarBit(1), T::Binary(1), T::VarBinary(1), T::Vector(Some(1)), T::Money(Some((1, 0))),
         T::Binary(16), T::VarBinary(255), T::Blob, T::Bit(None), T::Bit(Some(8)), T::VarBit(9), T::Boolean, T::Money(None), T::Money(Some((19, 4))), T::Json, T::JsonBinary, T::Uuid, T::Custom, T::Enum, T::ArrayInt, T::ArrayArrayText, T::Vector(None), T::Vector(Some(3)), T::Cidr, T::Inet, T::MacAddr, T::LTree,
     ]
 }
@@ -979,6 +981,65 @@ fn api_variants() -> Vec<(&'static str, Box<dyn Fn() -> TableCreateStatement>, B
 
 fn run_api_variants(rep: &Arc<Report>) -> u64 {
     let mut n = 0;
+    // a composite foreign key spelled call by call, in every order of from_tbl / from_col x 2 / to_tbl / to_col x 2, as a
+    // table element, as an ALTER TABLE action and as a statement of its own: the calls commute
+    let fk = |order: &[u8]| {
+        let mut f = ForeignKey::create();
+        f.name("fkc");
+        for c in order {
+            match c {
+                0 => f.from_tbl(a("t")),
+                1 => f.from_col(a("a")),
+                2 => f.from_col(a("b")),
+                3 => f.to_tbl(a("p")),
+                4 => f.to_col(a("x")),
+                _ => f.to_col(a("y")),
+            };
+        }
+        f.on_delete(ForeignKeyAction::Cascade);
+        f
+    };
+    let tfk = |order: &[u8]| {
+        let mut f = TableForeignKey::new();
+        f.name("fkc");
+        for c in order {
+            match c {
+                0 => f.from_tbl(a("t")),
+                1 => f.from_col(a("a")),
+                2 => f.from_col(a("b")),
+                3 => f.to_tbl(a("p")),
+                4 => f.to_col(a("x")),
+                _ => f.to_col(a("y")),
+            };
+        }
+        f
+    };
+    let canon_order: Vec<u8> = vec![0, 1, 2, 3, 4, 5];
+    for d in [Dialect::Mysql, Dialect::Postgres, Dialect::Sqlite] {
+        let render3 = |order: &[u8]| -> Vec<String> {
+            let r = catch(|| {
+                let mut f1 = fk(order);
+                let t = Table::create().table(a("t")).col(ColumnDef::new(a("a")).integer()).col(ColumnDef::new(a("b")).integer()).foreign_key(&mut f1).to_owned();
+                let f2 = fk(order);
+                let al = Table::alter().table(a("t")).add_foreign_key(&tfk(order)).to_owned();
+                match d {
+                    Dialect::Mysql => vec![t.to_string(MysqlQueryBuilder), f2.to_string(MysqlQueryBuilder), al.to_string(MysqlQueryBuilder)],
+                    Dialect::Postgres => vec![t.to_string(PostgresQueryBuilder), f2.to_string(PostgresQueryBuilder), al.to_string(PostgresQueryBuilder)],
+                    Dialect::Sqlite => vec![t.to_string(SqliteQueryBuilder)],
+                }
+            });
+            r.unwrap_or_else(|p| vec![format!("PANIC {p}")])
+        };
+        let want = render3(&canon_order);
+        for o in crate::props::c13::fk_call_orders() {
+            n += 1;
+            let got = render3(&o);
+            if got != want {
+                rep.raw_failures.inc();
+                rep.violation(Violation { key: format!("api-variant|{}|fk-call-order {:?}", d.name(), o), what: format!("{} foreign key built by the calls {:?} (0 from_tbl, 1 from_col a, 2 from_col b, 3 to_tbl, 4 to_col x, 5 to_col y) renders {:?}, in canonical order {:?}", d.name(), o, got, want), case: json!({"kind": "api-variant", "dialect": d.name(), "name": "fk-call-order"}) });
+            }
+        }
+    }
     for (name, via, canon) in api_variants() {
         for d in [Dialect::Mysql, Dialect::Postgres, Dialect::Sqlite] {
             n += 1;
